@@ -357,15 +357,30 @@ fn all_names(prims: &[&str]) -> Vec<String> {
     out
 }
 fn base_pattern(name: &str) -> String { name.split('_').nth(1).unwrap().chars().take_while(|c| c.is_ascii_uppercase() || c.is_ascii_digit()).collect() }
-fn keypair(seed: u8) -> (Vec<u8>, Vec<u8>) {
+fn dh_choice(name: &str) -> DHChoice {
+    #[cfg(feature = "use-p256")]
+    if name.contains("_P256_") { return DHChoice::P256; }
+    let _ = name; DHChoice::Curve25519
+}
+fn keypair(seed: u8) -> (Vec<u8>, Vec<u8>) { keypair_for("_25519_", seed) }
+fn keypair_for(name: &str, seed: u8) -> (Vec<u8>, Vec<u8>) {
     // deterministic key pair through the library's own DH object
-    let mut dh = DefaultResolver.resolve_dh(&DHChoice::Curve25519).unwrap();
+    let mut dh = DefaultResolver.resolve_dh(&dh_choice(name)).unwrap();
     let sk: Vec<u8> = (0..32).map(|i| seed.wrapping_mul(31).wrapping_add(i as u8)).collect();
     dh.set(&sk);
     (sk, dh.pubkey().to_vec())
 }
 struct Cfg { name: String, si: (Vec<u8>, Vec<u8>), sr: (Vec<u8>, Vec<u8>), ei: Vec<u8>, er: Vec<u8>, psk: [u8; 32], prologue: Vec<u8> }
-fn cfg(name: &str) -> Cfg { Cfg { name: name.to_string(), si: keypair(1), sr: keypair(2), ei: keypair(3).0, er: keypair(4).0, psk: [0x5a; 32], prologue: b"vp probe".to_vec() } }
+fn cfg(name: &str) -> Cfg { Cfg { name: name.to_string(), si: keypair_for(name, 1), sr: keypair_for(name, 2), ei: keypair_for(name, 3).0, er: keypair_for(name, 4).0, psk: [0x5a; 32], prologue: b"vp probe".to_vec() } }
+/// the primitive combinations of a sweep, plus - when the probe is built with those features - the P-256 and XChaChaPoly extensions
+fn with_extensions(base: &[&'static str]) -> Vec<&'static str> {
+    let mut v = base.to_vec();
+    #[cfg(feature = "use-p256")]
+    { v.push("P256_ChaChaPoly_SHA256"); v.push("P256_AESGCM_BLAKE2b"); }
+    #[cfg(feature = "use-xchacha20poly1305")]
+    { v.push("25519_XChaChaPoly_SHA512"); }
+    v
+}
 fn build(c: &Cfg, initiator: bool, res: Option<BoxedCryptoResolver>) -> Result<HandshakeState, Error> {
     let params: NoiseParams = c.name.parse()?;
     let mut b = match res { Some(r) => Builder::with_resolver(params, r), None => Builder::new(params) };
@@ -424,7 +439,7 @@ fn transcript(c: &Cfg, faults: bool) -> Result<Vec<Vec<u8>>, String> {
 #[test]
 fn C07_all_patterns_failed_calls_change_nothing() {
     let mut bad = 0;
-    for name in all_names(&["25519_ChaChaPoly_SHA256", "25519_AESGCM_BLAKE2b"]) {
+    for name in all_names(&with_extensions(&["25519_ChaChaPoly_SHA256", "25519_AESGCM_BLAKE2b"])) {
         let c = cfg(&name);
         match (transcript(&c, false), transcript(&c, true)) {
             (Ok(a), Ok(b)) => if a != b { let k = a.iter().zip(b.iter()).position(|(x, y)| x != y).unwrap_or(0); finding("C07", format!("{}: after failed handshake calls (undersized buffers, truncated/bit-flipped messages, out-of-turn calls) element {} of the transcript differs from the failure-free run", name, k)); bad += 1; },
@@ -438,7 +453,7 @@ fn C07_all_patterns_failed_calls_change_nothing() {
 #[test]
 fn C02_all_patterns_complete() {
     let mut bad = 0;
-    for name in all_names(&["25519_ChaChaPoly_BLAKE2s", "25519_AESGCM_SHA512"]) {
+    for name in all_names(&with_extensions(&["25519_ChaChaPoly_BLAKE2s", "25519_AESGCM_SHA512"])) {
         if let Err(e) = transcript(&cfg(&name), false) { finding("C02", format!("{}: honest session fails: {}", name, e)); bad += 1; if bad >= 4 { break; } }
     }
     assert_eq!(bad, 0);
@@ -470,7 +485,7 @@ fn C02_C14_largest_payload_is_accepted() {
 #[test]
 fn C17_remote_static() {
     let mut bad = 0;
-    for name in all_names(&["25519_ChaChaPoly_SHA256"]) {
+    for name in all_names(&with_extensions(&["25519_ChaChaPoly_SHA256"])) {
         let c = cfg(&name);
         let e = table_entry(&base_pattern(&name));
         let (mut i, mut r) = match (build(&c, true, None), build(&c, false, None)) { (Ok(a), Ok(b)) => (a, b), _ => continue };
@@ -597,7 +612,9 @@ fn oracle_names(s: &str) -> Vec<(String, Vec<OMod>, String, String, String)> {
     let f = oracle_fields(s, '_');
     let mut out = vec![];
     if f.len() != 5 || f[0] != "Noise" { return out; }
-    if !["25519", "448"].contains(&f[2].as_str()) || !["ChaChaPoly", "AESGCM"].contains(&f[3].as_str()) || !["SHA256", "SHA512", "BLAKE2s", "BLAKE2b"].contains(&f[4].as_str()) { return out; }
+    let dhs: &[&str] = if cfg!(feature = "use-p256") { &["25519", "448", "P256"] } else { &["25519", "448"] };
+    let cis: &[&str] = if cfg!(feature = "use-xchacha20poly1305") { &["ChaChaPoly", "AESGCM", "XChaChaPoly"] } else { &["ChaChaPoly", "AESGCM"] };
+    if !dhs.contains(&f[2].as_str()) || !cis.contains(&f[3].as_str()) || !["SHA256", "SHA512", "BLAKE2s", "BLAKE2b"].contains(&f[4].as_str()) { return out; }
     for e in TABLE.iter() {
         if let Some(rest) = f[1].strip_prefix(e.0) { if let Some(ms) = oracle_mods(rest) { out.push((e.0.to_string(), ms, f[2].clone(), f[3].clone(), f[4].clone())); } }
     }
@@ -611,8 +628,8 @@ fn c13_check(s: &str, bad: &mut usize) {
     match (got, want.first()) {
         (Ok(p), Some(w)) => {
             let mods: Vec<OMod> = p.handshake.modifiers.list.iter().map(|m| match m { HandshakeModifier::Psk(n) => OMod::Psk(*n), HandshakeModifier::Fallback => OMod::Fallback }).collect();
-            let dh = match p.dh { DHChoice::Curve25519 => "25519", DHChoice::Curve448 => "448" };
-            let ci = match p.cipher { CipherChoice::ChaChaPoly => "ChaChaPoly", CipherChoice::AESGCM => "AESGCM" };
+            let dh = match p.dh { DHChoice::Curve25519 => "25519", DHChoice::Curve448 => "448", #[cfg(feature = "use-p256")] DHChoice::P256 => "P256" };
+            let ci = match p.cipher { CipherChoice::ChaChaPoly => "ChaChaPoly", CipherChoice::AESGCM => "AESGCM", #[cfg(feature = "use-xchacha20poly1305")] CipherChoice::XChaChaPoly => "XChaChaPoly" };
             let ha = match p.hash { HashChoice::SHA256 => "SHA256", HashChoice::SHA512 => "SHA512", HashChoice::Blake2s => "BLAKE2s", HashChoice::Blake2b => "BLAKE2b" };
             if p.name != s { finding("C13", format!("parsing {:?} does not preserve the name: name = {:?}", s, p.name)); *bad += 1; }
             else if p.handshake.pattern.as_str() != w.0 || mods != w.1 || dh != w.2 || ci != w.3 || ha != w.4 {
@@ -1090,8 +1107,9 @@ fn C17_C19_rejected_handshake_messages_reveal_and_install_nothing() {
     let mut bad = 0;
     let secret: Vec<u8> = (0..48u8).map(|x| x.wrapping_mul(11).wrapping_add(0x30)).collect();
     for odd in [false, true] {
-        for e in TABLE.iter() {
-            let name = format!("Noise_{}_25519_ChaChaPoly_SHA256", e.0); let c = cfg(&name); let nh = e.3.len();
+        for (e, prim) in TABLE.iter().flat_map(|e| with_extensions(&["25519_ChaChaPoly_SHA256"]).into_iter().map(move |p| (e, p))) {
+            if odd && !prim.starts_with("25519") { continue; }
+            let name = format!("Noise_{}_{}", e.0, prim); let c = cfg(&name); let nh = e.3.len(); let pl = c.si.1.len();
             for k in 0..nh {
                 if !e.3[k].contains(&"s") { continue; }
                 let (mut i, mut r) = upto(&c, k, odd);
@@ -1099,11 +1117,11 @@ fn C17_C19_rejected_handshake_messages_reveal_and_install_nothing() {
                 let mut buf = vec![0u8; 2000];
                 let n = w.write_message(&secret, &mut buf).unwrap(); let msg = buf[..n].to_vec();
                 let s_encrypted = keyed_at(&name, k, "s");
-                let s_off = if e.3[k].contains(&"e") { 32 } else { 0 };
+                let s_off = if e.3[k].contains(&"e") { pl } else { 0 };
                 let payload_encrypted = w.was_write_payload_encrypted();
                 let mut alts: Vec<(String, Vec<u8>)> = vec![];
-                for pos in [n - 1, n - 17, s_off, s_off + 31, s_off + 32, s_off + 47, n - secret.len() - 16, 0] { if pos < n { let mut m = msg.clone(); m[pos] ^= 0x20; alts.push((format!("byte {} altered", pos), m)); } }
-                for cut in [n - 1, n - 16, n - 17, s_off + 48, s_off + 40, s_off + 32, s_off + 8] { if cut < n { alts.push((format!("truncated to {} bytes", cut), msg[..cut].to_vec())); } }
+                for pos in [n - 1, n - 17, s_off, s_off + pl - 1, s_off + pl, s_off + pl + 15, n - secret.len() - 16, 0] { if pos < n { let mut m = msg.clone(); m[pos] ^= 0x20; alts.push((format!("byte {} altered", pos), m)); } }
+                for cut in [n - 1, n - 16, n - 17, s_off + pl + 16, s_off + pl + 8, s_off + pl, s_off + 8] { if cut < n { alts.push((format!("truncated to {} bytes", cut), msg[..cut].to_vec())); } }
                 let mut moved_on = false;
                 for out_len in [secret.len(), 64usize, 100, 400] {
                     if moved_on { break; }
@@ -1251,7 +1269,8 @@ fn C17_failing_calls_never_change_the_reported_remote_static() {
     for e in TABLE.iter() {
         for suffix in ["", "psk0", "psk2"] {
             let nh = e.3.len(); if suffix == "psk2" && nh < 2 { continue; }
-            let name = format!("Noise_{}{}_25519_ChaChaPoly_SHA256", e.0, suffix); let c = cfg(&name);
+          for prim in with_extensions(&["25519_ChaChaPoly_SHA256"]) {
+            let name = format!("Noise_{}{}_{}", e.0, suffix, prim); let c = cfg(&name);
             let (mut i, mut r) = upto(&c, 0, false);
             let mut buf = vec![0u8; 2000]; let mut p = vec![0u8; 2000];
             for k in 0..=nh {
@@ -1269,6 +1288,7 @@ fn C17_failing_calls_never_change_the_reported_remote_static() {
                 let n = match w.write_message(&hs_payload(k), &mut buf) { Ok(n) => n, Err(e2) => { finding("C07", format!("{}: after failing calls the write of message {} returns {:?}", name, k, e2)); bad += 1; break; } };
                 if let Err(e2) = rd.read_message(&buf[..n], &mut p) { finding("C07", format!("{}: after failing calls the genuine message {} is rejected with {:?}", name, k, e2)); bad += 1; break; }
             }
+          }
             if bad >= 4 { break; }
         }
         if bad >= 4 { break; }
